@@ -578,7 +578,7 @@ func c30Build(c *Ctx, sp string) {
 			now, isCall := call.Common().Args[1].(*ssa.Call)
 			return exp && same && isCall && calleeName(now.Common()) == "time.Now"
 		}}
-		ws := e.Unguarded(fn.Blocks[0].Instrs[0], []ssa.Instruction{ap}, []Guard{g})
+		ws := e.Unguarded(nil, []ssa.Instruction{ap}, []Guard{g})
 		if len(ws) == 0 {
 			c.OK(rule, construct, ap.Pos(), "behind +true(<appended path>.Metadata.Expiry.After(time.Now()))")
 		} else {
@@ -621,13 +621,13 @@ func c30Build(c *Ctx, sp string) {
 	c.Check(len(selfUpd) == 1 && len(listUpd) >= 1 && len(upsAppend) >= 1, "D1-destinations", d.Name()+":shape", d.Fn.Pos(),
 		fmt.Sprintf("%d self entr(y/ies), %d list entr(y/ies), %d use(s) of the up segments", len(selfUpd), len(listUpd), len(upsAppend)))
 	if len(selfUpd) > 0 {
-		de.Require("D1-destinations", "non-wildcard-is-itself", d.Fn.Blocks[0].Instrs[0], selfUpd, de.AtomGuard("!wildcard", "-true("+wc+")"))
+		de.Require("D1-destinations", "non-wildcard-is-itself", nil, selfUpd, de.AtomGuard("!wildcard", "-true("+wc+")"))
 	}
 	if len(listUpd) > 0 {
-		de.Require("D1-destinations", "list-only-for-wildcard", d.Fn.Blocks[0].Instrs[0], listUpd, de.AtomGuard("wildcard", "+true("+wc+")"))
+		de.Require("D1-destinations", "list-only-for-wildcard", nil, listUpd, de.AtomGuard("wildcard", "+true("+wc+")"))
 	}
 	if len(upsAppend) > 0 {
-		de.Require("D1-destinations", "up-cores-only-local-isd", d.Fn.Blocks[0].Instrs[0], upsAppend, sameISD)
+		de.Require("D1-destinations", "up-cores-only-local-isd", nil, upsAppend, sameISD)
 	}
 	// the non-wildcard return holds only the self entry: the returned map of that
 	// branch receives no other update
@@ -732,11 +732,11 @@ func c30GetPaths(c *Ctx, sp string) {
 		}
 		c.Check(ok && !hasDP, "G1-local", v.Name()+":local-literal", localRet.Pos(),
 			fmt.Sprintf("local lookup returns %d path(s) %v; required one path {Src: local, Dst: dst} without a dataplane path", len(els), els))
-		e.Require("G1-local", "literal-only-for-local-dst", fn.Blocks[0].Instrs[0], []ssa.Instruction{localRet},
+		e.Require("G1-local", "literal-only-for-local-dst", nil, []ssa.Instruction{localRet},
 			e.AtomGuard("dst==local", "+true("+isLocal[0]+")", "+true("+isLocal[1]+")"))
 	}
 	sinks := e.CallSites("invoke:"+sp+"Splitter.Split", "(*"+sp+"Fetcher).Fetch", pn+"translatePaths")
-	e.Require("G1-local", "local-dst-never-fetches", fn.Blocks[0].Instrs[0], sinks,
+	e.Require("G1-local", "local-dst-never-fetches", nil, sinks,
 		e.AtomGuard("dst!=local", "-true("+isLocal[0]+")", "-true("+isLocal[1]+")"))
 	// translatePath
 	if t := c.View(pn + "translatePath"); t != nil {
